@@ -127,17 +127,20 @@ class ListV(AV):
 
 
 class DictV(AV):
-    __slots__ = ("items",)
+    """Dictionary value; ``origin`` names the heap slot it is an alias of (None for fresh dictionaries / copies)."""
+
+    __slots__ = ("items", "origin")
     __hash__ = AV.__hash__
 
-    def __init__(self, items):
+    def __init__(self, items, origin=None):
         self.items = tuple(items)  # ((key AV, val AV), ...) insertion ordered
+        self.origin = origin
 
     def __eq__(self, o):
-        return isinstance(o, DictV) and o.items == self.items
+        return isinstance(o, DictV) and o.items == self.items and o.origin == self.origin
 
     def _hash(self):
-        return hash(("D", self.items))
+        return hash(("D", self.items, self.origin))
 
     def get(self, key):
         for k, v in self.items:
@@ -155,7 +158,7 @@ class DictV(AV):
                 out.append((k, v))
         if not done:
             out.append((key, val))
-        return DictV(out)
+        return DictV(out, self.origin)
 
     def __repr__(self):
         return "{" + ", ".join(f"{k!r}: {v!r}" for k, v in self.items) + "}"
@@ -428,6 +431,7 @@ class Policy:
     """Rule specific semantics; the defaults are conservative."""
 
     inline_depth = 4
+    track_aliases = False  # dictionaries read from object attributes remember their heap slot (mutation through the alias is visible)
     record_atoms = True  # remember the decision taken on an undecided test (path consistency)
     loop_unroll = 2  # iterations explored for loops over non-concrete iterables
     max_cfgs = 20000
@@ -503,6 +507,9 @@ CMP_NAME = {
     ast.Eq: "eq", ast.NotEq: "noteq", ast.Lt: "lt", ast.LtE: "lte", ast.Gt: "gt", ast.GtE: "gte",
     ast.Is: "is", ast.IsNot: "isnot", ast.In: "in", ast.NotIn: "notin",
 }
+
+
+NOT_NONE_OPS = {"str", "repr", "len", "new", "fstr", "format", "int", "float", "bool", "tuple", "list", "set", "dict", "sorted", "frozenset", "not", "slice"}
 
 
 class Interp:
@@ -983,7 +990,10 @@ class Interp:
                 for c1, idx in self.ev(tgt.slice, c, out):
                     c2 = c1.emit(("setitem", base, idx, val)) if getattr(self.policy, "emit_setitem", True) else c1
                     if isinstance(base, DictV):
-                        c2 = self.store_back(tgt.value, base.set(idx, val), c2)
+                        nb = base.set(idx, val)
+                        c2 = self.store_back(tgt.value, nb, c2)
+                        if base.origin is not None:
+                            c2 = c2.hset(base.origin, DictV(nb.items))
                     res.append(c2)
             return res
         if isinstance(tgt, ast.Starred):
@@ -1141,7 +1151,10 @@ class Interp:
         if isinstance(base, ObjV):
             key = f"{base.oid}.{attr}"
             if key in cfg.heap:
-                return cfg.heap[key]
+                v = cfg.heap[key]
+                if isinstance(v, DictV) and self.policy.track_aliases:
+                    return DictV(v.items, key)
+                return v
             f = self.lookup_method(base.cls, attr)
             if f is not None:
                 return FuncV(f, recv=base, name=f"{base.cls}.{attr}")
@@ -1415,6 +1428,8 @@ class Interp:
                 and l.tag[1] == r.tag[1] and l.tag[2].isupper() and r.tag[2].isupper():
             return l.tag[2] == r.tag[2]  # members of one enumeration class
         for a, b in ((l, r), (r, l)):
+            if isinstance(a, Const) and a.v is None and isinstance(b, App) and b.op in NOT_NONE_OPS:
+                return False  # results of str(), repr(), len(), constructors ... are never None
             if isinstance(a, Const) and a.v is None and isinstance(b, Sym) and b.tag and b.tag[0] == "g":
                 return False  # an imported module attribute is not None
             if isinstance(a, Const) and a.v is None and isinstance(b, Sym) and b.tag and b.tag[0] == "ver" and b.tag[-1] is True:
@@ -1768,6 +1783,10 @@ class Interp:
 
         def rebind(newv, ret=NONE):
             c = cfg
+            org = getattr(base, "origin", None)
+            if org is not None and isinstance(newv, DictV):
+                newv = DictV(newv.items, org)
+                c = c.hset(org, DictV(newv.items))
             if recv_name is not None and recv_name in cfg.env:
                 c = c.set(recv_name, newv)
             elif recv_attr is not None:
@@ -1820,7 +1839,7 @@ class Interp:
             if meth == "values":
                 return [(cfg, ListV([v for _, v in base.items]))]
             if meth == "copy":
-                return [(cfg, base)]
+                return [(cfg, DictV(base.items))]
             if meth == "update" and len(args) == 1:
                 if isinstance(args[0], DictV):
                     d = base
@@ -1830,7 +1849,7 @@ class Interp:
                 return rebind(base.set(App("starstar", (args[0],)), args[0]))
             if meth == "pop" and args and isinstance(args[0], Const):
                 v = base.get(args[0])
-                nd = DictV([(k, x) for k, x in base.items if k != args[0]])
+                nd = DictV([(k, x) for k, x in base.items if k != args[0]], base.origin)
                 if v is not None:
                     return rebind(nd, v)
                 if len(args) > 1:
